@@ -291,7 +291,7 @@ func runC07(c *sim.Ctx) *sim.Violation {
 	for k := 0; k < nS; k++ {
 		e := ending(t.Int(3))
 		m := link.Mode{Chunk: true, Stutter: t.Bool(1, 2), Scribble: t.Bool(1, 2), DataEOF: e == endDataEOF, Biased: bias}
-		r := link.NewReader(c, streamFor(frame, e), m)
+		r := c07Reader(c, streamFor(frame, e), m)
 		rd, rtype := link.WrapReader(c, r)
 		got := ReadOne(rd)
 		sched++
@@ -316,7 +316,7 @@ func runC07(c *sim.Ctx) *sim.Violation {
 			st[1+t.Int(nseg-1)] = 100 + t.Int(60)
 		}
 		e := ending(t.Int(3))
-		r := link.NewReader(c, streamFor(frame, e), link.Mode{DataEOF: e == endDataEOF}).WithPlan(&link.Plan{Segs: segs, Stutters: st})
+		r := c07Reader(c, streamFor(frame, e), link.Mode{DataEOF: e == endDataEOF}).WithPlan(&link.Plan{Segs: segs, Stutters: st})
 		got := ReadOne(r)
 		sched++
 		c.Count("probe.multi-megabyte-frame-with-100+-zero-length-reads-inside-the-body")
@@ -348,7 +348,7 @@ func runC07(c *sim.Ctx) *sim.Violation {
 			}
 			segs = append(segs, run)
 			e := ending(mask % 3)
-			r := link.NewReader(c, streamFor(frame, e), link.Mode{DataEOF: e == endDataEOF}).WithPlan(&link.Plan{Segs: segs})
+			r := c07Reader(c, streamFor(frame, e), link.Mode{DataEOF: e == endDataEOF}).WithPlan(&link.Plan{Segs: segs})
 			got := ReadOne(r)
 			sched++
 			if v := c07Compare(c, frame, want, got, r, e, fmt.Sprintf("header composition %v then the rest,", segs)); v != nil {
@@ -364,7 +364,7 @@ func runC07(c *sim.Ctx) *sim.Violation {
 		for i := range segs {
 			segs[i] = 1
 		}
-		r := link.NewReader(c, streamFor(frame, e), link.Mode{DataEOF: e == endDataEOF}).WithPlan(&link.Plan{Segs: segs})
+		r := c07Reader(c, streamFor(frame, e), link.Mode{DataEOF: e == endDataEOF}).WithPlan(&link.Plan{Segs: segs})
 		got := ReadOne(r)
 		sched++
 		c.Count("probe.byte-at-a-time")
@@ -402,7 +402,7 @@ func runC07(c *sim.Ctx) *sim.Violation {
 	}
 	for _, k := range offs {
 		e := ending(k % 3)
-		r := link.NewReader(c, streamFor(frame, e), link.Mode{DataEOF: e == endDataEOF}).WithPlan(&link.Plan{Segs: []int{k}})
+		r := c07Reader(c, streamFor(frame, e), link.Mode{DataEOF: e == endDataEOF}).WithPlan(&link.Plan{Segs: []int{k}})
 		got := ReadOne(r)
 		sched++
 		if v := c07Compare(c, frame, want, got, r, e, fmt.Sprintf("single split at %d,", k)); v != nil {
@@ -415,6 +415,21 @@ func runC07(c *sim.Ctx) *sim.Violation {
 		c.Sample(fmt.Sprintf("frame %s (%d bytes, valid=%v): contiguous -> %s; %d schedules agreed", hexs(frame), L, valid, oneOutcome(want), sched))
 	}
 	return nil
+}
+
+// c07Reader hands out a reader for the next schedule: a new object, or - one
+// time in two - the reader object of the previous schedule of this run, re-armed
+// with the new stream.
+func c07Reader(c *sim.Ctx, data []byte, m link.Mode) *link.Reader {
+	if prev, ok := c.Scratch["c07reader"].(*link.Reader); ok && prev != nil && c.T.Bool(1, 2) {
+		return prev.Reset(data, m)
+	}
+	r := link.NewReader(c, data, m)
+	if c.Scratch == nil {
+		c.Scratch = map[string]interface{}{}
+	}
+	c.Scratch["c07reader"] = r
+	return r
 }
 
 func oneOutcome(o Outcome) string {
@@ -464,7 +479,7 @@ func c07Exhaustive(c *sim.Ctx) *sim.Violation {
 		}
 		segs = append(segs, run)
 		for e := endMore; e <= endEOFNext; e++ {
-			r := link.NewReader(c, streamFor(frame, e), link.Mode{DataEOF: e == endDataEOF}).WithPlan(&link.Plan{Segs: segs})
+			r := c07Reader(c, streamFor(frame, e), link.Mode{DataEOF: e == endDataEOF}).WithPlan(&link.Plan{Segs: segs})
 			got := ReadOne(r)
 			n++
 			if v := c07Compare(c, frame, want, got, r, e, fmt.Sprintf("composition %v,", segs)); v != nil {
